@@ -222,12 +222,14 @@ func c11(args []string) error {
 					map[string]interface{}{"op": "reformat-phylip-model", "variant": v, "names": names, "seqs": seqs})
 				stats["reformat-phylip-model"]++
 			} else {
-				a := []string{"reformat", "fasta", "-i", in}
+				v := r.Intn(3)
+				f := []string{"fasta", "nexus", "clustal"}[v]
+				a := []string{"reformat", f, "-i", in}
 				o1 := runCLI(bin, dir, append(a, "-t", "1")...)
 				o2 := runCLI(bin, dir, append(a, "-t", fmt.Sprint(t2))...)
-				emit(5, "reformat fasta", names, seqs, nil, 0, dyadic{1, 1}, false, []string{o1.stdout}, []string{o2.stdout}, o1.rc, o2.rc,
-					map[string]interface{}{"op": "reformat-fasta-model", "names": names, "seqs": seqs})
-				stats["reformat-fasta-model"]++
+				emit(5+v, "reformat "+f, names, seqs, nil, 0, dyadic{1, 1}, false, []string{o1.stdout}, []string{o2.stdout}, o1.rc, o2.rc,
+					map[string]interface{}{"op": "reformat-" + f + "-model", "names": names, "seqs": seqs})
+				stats["reformat-"+f+"-model"]++
 			}
 		case kind < 9: // reformat chain back to the starting format
 			start := formats[r.Intn(len(formats))]
